@@ -200,6 +200,9 @@ func c16Items(r *rand.Rand, s *model.Schema, split bool, lateOK bool) []*defItem
 			if !model.IsBuiltinScalar(a.Type.Base()) {
 				it.deps = append(it.deps, a.Type.Base())
 			}
+			for _, du := range a.Dirs {
+				it.deps = append(it.deps, "@"+du.Name) // a directive used on the argument must be resolvable when this one arrives
+			}
 		}
 		items = append(items, it)
 	}
